@@ -462,6 +462,83 @@ def fam_embedded(E, real=False):
     E.prove(lf is not None, 'environment-block-ends')
 
 
+def fam_queue_process(E, real=False):
+    """a process receives from a native usim Queue by `yield queue` (a native awaitable) while a
+    native producer puts two items and another process interrupts it at a symbolic date - also
+    in the very time step of a put / of the hand-over of an item.  Nothing may be lost:
+    every item put is received by the process exactly once and in order, and every interrupt is
+    raised in it exactly once."""
+    g = [E.num('g%d' % i, 0, 10, real=real) for i in range(2)]
+    c = E.num('c', 0, 25, real=real)
+    c2 = E.num('c2', 0, 10, real=real)
+    ifirst = E.flag('ifirst')
+    log = Log()
+    q = usim.Queue()
+    S = {}
+
+    def consumer(env):
+        for _ in range(8):
+            try:
+                item = yield q
+                log('c', 'got', item)
+            except Interrupt as irq:
+                log('c', 'interrupt', irq.cause)
+            except usim.StreamClosed:
+                log('c', 'closed')
+                return 'done'
+        log('c', 'gave-up')
+
+    async def producer():
+        for j in range(2):
+            await (time + g[j])
+            log('p', 'put', j)
+            await q.put(j)
+        await (time + 60)
+        await q.close()
+
+    def interrupter(env):
+        yield env.timeout(c)
+        for k, pause in enumerate((c2, None)):
+            if S['c'].is_alive:
+                log('i', 'interrupt', k)
+                S['c'].interrupt(k)
+            if pause is not None:
+                yield env.timeout(pause)
+
+    async def main():
+        async with Environment() as env:
+            if ifirst:
+                env.process(interrupter(env))
+            S['c'] = env.process(consumer(env))
+            env.schedule(producer())
+            if not ifirst:
+                env.process(interrupter(env))
+
+    out = simulate(main(), log=log)
+    bad = classify_run_exception(out.exc, allowed=())
+    E.prove(bad is None, 'run-ends-normally', bad)
+    if out.exc is not None:
+        return
+    got = [e[3] for e in log.of('c', 'got')]
+    E.prove(got == [0, 1], 'process-receives-every-item-exactly-once-in-order',
+            ('put [0, 1], the process received %r', got))
+    sent = log.of('i', 'interrupt')
+    recv = log.of('c', 'interrupt')
+    E.prove([e[3] for e in recv] == [e[3] for e in sent], 'every-interrupt-raised-exactly-once',
+            ('issued %r, raised %r', [e[3] for e in sent], [e[3] for e in recv]))
+    for a, b in zip(sent, recv):
+        E.prove(EQ(a[2], b[2]), 'interrupt-raised-in-the-time-step-of-the-call',
+                ('interrupt %r issued at %r, raised at %r', a[3], a[2], b[2]))
+    E.prove(log.has('c', 'closed') and not log.has('c', 'gave-up'), 'process-ends-with-the-stream')
+    for j in range(2):
+        pj = [e for e in log.of('p', 'put') if e[3] == j][0]
+        gj = [e for e in log.of('c', 'got') if e[3] == j]
+        if gj:
+            E.prove(EQ(gj[0][2], pj[2]), 'item-received-in-the-time-step-of-its-put')
+            E.reach_if(AND(*[EQ(x[2], pj[2]) for x in sent[:1]]) if sent else False,
+                       'interrupt-in-the-time-step-of-a-put')
+
+
 FAMILIES = [
     Family('event', fam_event, quick=dict(nwait=2), thorough=dict(nwait=3),
            reach=['unhandled-failure', 'waited-for-fired-event', 'waited-before-trigger',
@@ -479,6 +556,10 @@ FAMILIES = [
     Family('until_failing', fam_until, quick=dict(mode='failing-event'),
            thorough=dict(mode='failing-event'), reach=['failing'],
            bounds='env.run(until=event that fails)'),
+    Family('queue_process', fam_queue_process, quick=dict(), thorough=dict(real=True),
+           reach=['interrupt-in-the-time-step-of-a-put'],
+           bounds='a process receiving from a native Queue by `yield queue`, 2 puts, 2 interrupts '
+                  'at symbolic dates (also in the time step of a put), both spawn orders'),
     Family('embedded', fam_embedded, quick=dict(), thorough=dict(real=True),
            bounds='environment hosted by a native simulation'),
 ]
